@@ -39,11 +39,11 @@ type Profile struct {
 	ScalarBias int // percent chance that a value below the root is a scalar (default 45)
 }
 
-var HostileKeys = []string{"a", "b", "c", "d", "", "a/b", "m~n", "~", "/", "~1", "~0", "0", "1", "-1", "01", "x<y", "k&v", " ", "é", "😀", `q"r`, `b\s`, "\n", "-"}
+var HostileKeys = []string{"a", "b", "c", "d", "", "a/b", "m~n", "~", "/", "~1", "~0", "sensor_reading_01_celsius", "sensor_reading_02_celsius", "0", "1", "-1", "01", "x<y", "k&v", " ", "é", "😀", `q"r`, `b\s`, "\n", "-"}
 var PlainKeys = []string{"a", "b", "c", "d", "e", "f", "k", "0", "1", "zz"}
-var MergeKeys = []string{"a", "b", "c", "d", "x<y", "", "a~1b", "~0", `b\s`, `q"r`}
+var MergeKeys = []string{"a", "b", "c", "d", "x<y", "", "a~1b", "~0", `b\s`, `q"r`, "sensor_reading_01_celsius", "sensor_reading_02_celsius"}
 
-var HostileStrings = []string{"", "s", "x<y>&z", "\xe2\x80\xa8\xe2\x80\xa9", "é😀", `q"r\`, "\b\f\n\r\t\x01", "A", "/", "~", "null", "0", "a b", "\u007f", "𝄞"}
+var HostileStrings = []string{"", "s", "x<y>&z", "\xe2\x80\xa8\xe2\x80\xa9", "\u2039a\u203a\u203c\u2027\u202a\u2030", "é😀", `q"r\`, "\b\f\n\r\t\x01", "A", "/", "~", "null", "0", "a b", "\u007f", "𝄞"}
 var PlainStrings = []string{"", "s", "A", "hello world", "null", "0", "é", "😀", "a b c"}
 
 var OddNumbers = []string{"0", "1", "-1", "-0", "1.0", "1e400", "1E+2", "12345678901234567890123", "0.1e-7", "2.50", "1e0", "100", "7", "0.0", "-1.5e-3", "9007199254740993"}
@@ -332,9 +332,15 @@ func (p *Profile) MutateOnePoint(r *rand.Rand, v *jr.Value) *jr.Value {
 	case jr.Bool:
 		n.B = !n.B
 	case jr.Num:
-		if n.Lit == "3" {
+		last := n.Lit[len(n.Lit)-1]
+		switch {
+		case r.Intn(2) == 0 && len(n.Lit) >= 16 && last >= '0' && last <= '9' && !strings.ContainsAny(n.Lit, ".eE"):
+			// a neighbouring integer: a different number with (for long literals) the same float64 image
+			nl := byte('0' + (last-'0'+1)%10)
+			n.Lit = n.Lit[:len(n.Lit)-1] + string(nl)
+		case n.Lit == "3":
 			n.Lit = "4"
-		} else {
+		default:
 			n.Lit = "3"
 		}
 	case jr.Str:
